@@ -22,7 +22,7 @@ def _find_defs(src):
 def defined(src):
     return [d[0] for d in _find_defs(src)]
 
-def cut(src, names, report=None):
+def cut(src, names, report=None, only_linkonce=False):
     """turn the definitions matching any of the names / fnmatch patterns into declarations"""
     pats = [n if n.startswith('@') else '@' + n for n in names]
     out = []; pos = 0; hit = set()
@@ -30,6 +30,7 @@ def cut(src, names, report=None):
         bare = name.strip('@').strip('"')
         mt = [p for p in pats if fnmatch.fnmatchcase(bare, p[1:].strip('"'))]
         if not mt: continue
+        if only_linkonce and not re.search(r'\b(linkonce_odr|linkonce|weak_odr|available_externally)\b', prefix): continue
         hit.update(mt)
         hdr = re.sub(r'^define', 'declare', prefix)
         hdr = re.sub(r'\b(dso_local|linkonce_odr|linkonce|weak_odr|internal|private|hidden|weak|available_externally|unnamed_addr|local_unnamed_addr)\b\s*', '', hdr)
@@ -40,6 +41,10 @@ def cut(src, names, report=None):
         if report is not None: report.append(bare)
     out.append(src[pos:])
     return ''.join(out), hit
+
+def cut_linkonce(src, names, report=None):
+    """remove inline (linkonce_odr) definitions so that a replacement defined under the same symbol (asm label) in a stub TU is used"""
+    return cut(src, names, report, only_linkonce=True)
 
 def add_fn_attr(src, attr):
     """append a function attribute to every attribute group, and give attribute-less definitions none (best effort)"""
